@@ -143,9 +143,24 @@ class MatchModel:
             return o
 
         def h_function(i, c, r, a, k):
+            # name and qualifiers as the factory and the component's own set_qualifiers() make them (the real code, interpreted)
             raw = k.get("name")
-            dot = raw.find(".")
-            name, quals = (raw, []) if dot < 0 else (raw[:dot], raw[dot + 1:].strip().split("."))
+            fq = self.idx.method("FunctionFactory", "get_name_and_qualifier")
+            fs = self.idx.method("Qualified", "set_qualifiers")
+            sub = Interp(self.idx, types={"FunctionFactory": "FunctionFactory", "cls": "FunctionFactory", "F": "Function"}, unknown_calls="residual",
+                         inline={f"{c_.name}.qualifiers" for c_ in self.idx.mro("Function")})
+
+            def prog(j):
+                name, qual = j.call_function(fq, {"name": raw}, "FunctionFactory")
+                j.store["F._qualifiers"] = []
+                if qual:
+                    j.call_function(fs, {"__pos__": [qual]}, "F")
+                return name, list(j.store.get("F._qualifiers") or [])
+
+            ps = sub.run_program(prog, {})
+            if len(ps) != 1 or ps[0].result[0] != "return":
+                raise AnalysisError(f"function name/qualifier split is not evaluable on {raw!r}: {[p.result for p in ps][:2]}")
+            name, quals = ps[0].result[1]
             o = new("Function", i, name=name, quals=quals, child=k.get("child"))
             return o
 
